@@ -135,14 +135,21 @@ def one_case(ctx, index: int, rng: random.Random):
         infs = True
     wts, wkind = gen.weights(rng, len(data))
     general = False
+    wide = False
     if wts is not None and rng.random() < 0.1:
-        wts = [rng.uniform(0, 3) for _ in data]
+        if rng.random() < 0.5:
+            wts = [rng.uniform(0, 3) for _ in data]
+        else:  # magnitudes many orders apart: a light bin next to a heavy one keeps its own sum
+            wts = [rng.choice([2.0**60, 1e6, 1.0, 1.0, 1e-9, 3.0, 0.75, 2.0**-30]) for _ in data]
         wkind = "general"
         general = True
+        wide = max(wts, default=0) > 1e5
     dtype = rng.choice([None, None, None, "int64", "float64", "float32", "int32", "int16", "float16"])
     w_is_float = wts is not None and (wkind in ("dyadic", "zeros_some", "general") or len(data) == 0)
     if dtype is not None and np.dtype(dtype).kind in "iu" and w_is_float:
         dtype = "float64"  # integer histogram + float weights is a refusal (C13), not generated here
+    if wide and dtype in ("float16", "float32"):
+        dtype = "float64"  # 2**120 squared weights do not fit the narrow float types
     if dtype == "float16" and (len(data) > 40):
         dtype = "float32"
     if dtype == "int16" and len(data) > 300:
@@ -162,9 +169,15 @@ def one_case(ctx, index: int, rng: random.Random):
             w_arg = np.zeros(0, dtype=float)
         kwargs["weights"] = w_arg
     container, ckind = gen.shaped(rng, data)
-    if ckind == "array2d" and w_arg is not None:
+    if ckind.startswith("array2d") and w_arg is not None:
+        # weights belong to values by index: same logical shape, C order whatever the memory layout of the data
         w_arg = np.asarray(wts).reshape(np.asarray(container).shape)
         kwargs["weights"] = w_arg
+    elif ckind == "array" and w_arg is not None and len(data) >= 4 and len(data) % 2 == 0 and rng.random() < 0.2:
+        # ... and the other way round: C-ordered data, weights in Fortran order
+        container = np.asarray(data, dtype=float).reshape(2, -1)
+        kwargs["weights"] = w_arg = np.asfortranarray(np.asarray(wts).reshape(2, -1))
+        ckind = "array2d_wF"
     if ckind == "tuple" and len(data) == 0:
         container, ckind = [], "list"
 
